@@ -23,7 +23,7 @@ CASE_TIMEOUT = {"quick": 40, "thorough": 120}
 
 
 def budget(tier):
-    return 800 if tier == "quick" else 8000
+    return 1200 if tier == "quick" else 12000
 
 
 def gen_case(rng, tier, k):
